@@ -26,6 +26,7 @@ EXPLANATION = (
     "buckets formatted, and the universe predicate equals dispatch's. Does not decide that the attribution forest "
     "reaches every non-cyclic step for every leftover graph. "
     'Also: the seed statement and the candidate arm of each root kind select the same (step, root) pairs, with the per-request unsatisfiability test for resources; R-C19-5 the invalid-target verdict is taken after the startup rescans.'
+    ' R-C19-6 an invalid target is recorded in the GraphError handler, reported and sets the failed bit; R-C19-7 the creator-chain walk ends only at the root; R-C19-8 no transient state survives a restart.'
 )
 ASSUMPTIONS = ["the pending universe equals dispatch's universe (C10's rule R-C10-3)"]
 
